@@ -166,7 +166,7 @@ Section WithBz.
 
   Lemma Rsafe_goldsrc_info : Rsafe parse_goldsrc_info.
   Proof.
-    unfold parse_goldsrc_info, read_u32. rs.
+    unfold parse_goldsrc_info, parse_mod_data, read_u32. rs.
     - apply Rsafe_lift. repeat match goal with |- safe (if ?c then _ else _) => destruct c end; exact I.
     - apply Rsafe_lift. repeat match goal with |- safe (if ?c then _ else _) => destruct c end; exact I.
   Qed.
@@ -190,15 +190,10 @@ Section WithBz.
     intros b Hb.
     destruct (Rsafe_read_u8 b Hb) as [H1 H2].
     destruct (read_u8 b) as [[value|x| | |] b1]; cbn [fst snd] in *; try contradiction.
-    - assert (G : Rsafe (let* port0 := opt_read (N.testbit value 7) (read_uint false 2) in
-                         let* steam_id := opt_read (N.testbit value 4) (read_uint false 8) in
-                         let* tv_port := opt_read (N.testbit value 6) (read_uint false 2) in
-                         let* tv_name := opt_read (N.testbit value 6) read_cstr in
-                         let* keywords := opt_read (N.testbit value 5) read_cstr in
-                         let* game_id := opt_read (N.testbit value 0) (read_uint false 8) in
-                         ret (mk_info a a0 a1 a2 a3 (match game_id with Some gid => gid mod 16777216 | None => a4 end)
-                                      a5 a6 a7 a9 a11 (a12 =? 1) (a13 =? 1) a14 a15
-                                      (Some (mk_extra port0 steam_id tv_port tv_name keywords game_id)) false None))) by rs.
+    - assert (G : Rsafe (let* ed := parse_edf value in
+                         ret (mk_info a a0 a1 a2 a3 (match ed_game_id ed with Some gid => gid mod 16777216 | None => a4 end)
+                                      a5 a6 a7 a9 a11 (a12 =? 1) (a13 =? 1) a14 a15 (Some ed) false None))).
+      { unfold parse_edf, read_u16, read_u64. rs. }
       exact (G b1 H2).
     - split; [exact I|exact H2].
   Qed.
